@@ -83,7 +83,8 @@ def run(lo, hi, seed, res):
             except (refevm.StepBudget, refevm.Unsupported):
                 res["counters"]["jump_ref_skipped"] += 1
                 continue
-            want = ("ok", ret) if ok else (kind, b"")
+            # all exceptional halts are one observable outcome in the EVM (which check fires first is not observable)
+            want = ("ok", ret) if ok else (("revert", ret) if kind == "revert" else ("halt", b""))
             r = symrun.run_symbolic({0x1000: code}, ncd=0, concrete=dict(cd=[], caller=0x2000, origin=0x2000, value=0))
             if r.crash or len(r.paths) != 1:
                 res["violations"].append(dict(what="jump program: crash or path count != 1", key="jump-crash",
@@ -94,9 +95,14 @@ def run(lo, hi, seed, res):
             kindmap = {None: "ok", "InvalidJumpDestError": "badjump", "InvalidOpcode": "invalid",
                        "StackUnderflowError": "underflow", "Revert": "revert", "OutOfGasError": "oog",
                        "StackOverflowError": "overflow", "OutOfBoundsRead": "oob", "WriteInStaticContext": "static"}
-            got = (kindmap.get(p.error, p.error), out if p.error is None else b"")
+            if p.stuck and kind == "invalid" and "Unsupported opcode" in (p.errmsg or ""):
+                # an undefined opcode byte: halmos stops the path with an error (reported, fail-safe) where the EVM halts
+                res["counters"]["undefined_opcode_stuck"] += 1
+                continue
+            gk = kindmap.get(p.error, p.error)
+            got = (gk if gk in ("ok", "revert") else ("halt" if not p.stuck else "stuck:" + str(p.error)), out if p.error is None or gk == "revert" else b"")
             taken = (not use_jumpi) or cond != 0
-            if taken and want[0] == "badjump":
+            if taken and kind == "badjump":
                 res["counters"]["jump_rejected_invalid"] += 1
             elif taken:
                 res["counters"]["jump_taken_valid"] += 1
